@@ -822,4 +822,40 @@ theorem transposeR_involutive (m : List (List Int)) (k : Nat) (hk : 0 < k) (hm :
 
 example : transposeR [[1, 2, 3], [4], [5, 6]] = [[1, 4, 5], [2, 6], [3]] ∧ zipLongest [1, 2, 3] [7] = [(1, 7), (2, 0), (3, 0)] := by decide
 
+/-! ## interleave, any two lengths -/
+
+/-- **interleave**: nothing is lost or invented, whatever the two lengths (the seeded change `interleave_zip_drops_item` loses one
+    item when the second list is longer), and each list keeps its own order inside the result -/
+theorem interleave_perm : ∀ (a b : List Int), (interleave a b).Perm (a ++ b)
+  | [], bs => by simp [interleave]
+  | a :: as, [] => by simp [interleave]
+  | a :: as, b :: bs => by
+      have ih := interleave_perm as bs
+      simp only [interleave, List.cons_append]
+      refine List.Perm.cons a ?_
+      exact (List.Perm.cons b ih).trans (List.perm_middle.symm)
+
+theorem interleave_sublists : ∀ (a b : List Int), a.Sublist (interleave a b) ∧ b.Sublist (interleave a b)
+  | [], bs => by simp [interleave]
+  | a :: as, [] => by simp [interleave]
+  | a :: as, b :: bs => by
+      obtain ⟨h1, h2⟩ := interleave_sublists as bs
+      simp only [interleave]
+      exact ⟨(h1.cons b).cons₂ a, (h2.cons₂ b).cons a⟩
+
+/-- position by position: while both lists last, item `2i` is `a[i]` and item `2i+1` is `b[i]` -/
+theorem interleave_get : ∀ (a b : List Int) (i : Nat), i < a.length → i < b.length →
+    (interleave a b)[2 * i]? = a[i]? ∧ (interleave a b)[2 * i + 1]? = b[i]?
+  | [], _, i, h, _ => by simp at h
+  | _ :: _, [], i, _, h => by simp at h
+  | a :: as, b :: bs, i, ha, hb => by
+      cases i with
+      | zero => simp [interleave]
+      | succ i =>
+        have := interleave_get as bs i (by simpa using ha) (by simpa using hb)
+        have e1 : 2 * (i + 1) = 2 * i + 1 + 1 := by omega
+        have e2 : 2 * (i + 1) + 1 = 2 * i + 1 + 1 + 1 := by omega
+        simp only [interleave, e1, e2, List.getElem?_cons_succ]
+        exact this
+
 end C16
